@@ -107,7 +107,7 @@ impl Segment {
 
         let batch = batch_accumulator.materialize_batch_and_update_state();
         let batch_size = batch.get_size_bytes();
-        if batch_size > 0 {
+        if !batch_accumulator.is_empty() {
             self.unsaved_messages = Some(batch_accumulator);
         }
         let confirmation = match confirmation {
